@@ -468,6 +468,13 @@ class InProtocolBase(ProtocolMixin):
             raise ValidationError(string)
 
     def enum_base_from_bytes(self, cls, value):
+        if isinstance(value, six.binary_type):
+            # the name of the value as bytes (MessagePack: text as bin)
+            try:
+                value = value.decode(self.default_string_encoding or 'utf8')
+            except UnicodeDecodeError:
+                raise ValidationError(value)
+
         if self.validator is self.SOFT_VALIDATION and not (
                                         cls.validate_string(cls, value)):
             raise ValidationError(value)
